@@ -656,7 +656,7 @@ def unit_range1(ctx):
             raise Skip()
         a = ctx.choose("lo", list(range(n - 1)))
         b = ctx.choose("hi", list(range(a + 1, n)))
-        _do_range(ctx, geo, mesh, field, 0, geo.centre(0, a), geo.centre(0, b), f"reversed c{a}..c{b}", reverse=True)
+        _do_range(ctx, geo, mesh, field, 0, geo.centre(0, a), geo.centre(0, b), f"reversed c{a}..c{b}", reverse=True, with_mesh=True)
     else:
         side = ctx.choose("side", ["low", "high", "both"])
         how = ctx.choose("how", ["half", "margin"])
